@@ -386,6 +386,36 @@ def tar_links(limit=1000):
     return None
 
 
+def member_boundary(limit=1000):
+    """zip / tar: a member of exactly the per-member limit is extracted, a member one byte above it is not."""
+    import dataclasses
+    import sys as _sys
+    _sys.path.insert(0, os.path.dirname(os.path.abspath(__file__)))
+    import archive_probe
+    from sharepoint2text.parsing.extractors import archive_extractor as ae
+
+    def body(tag, n):
+        return (tag + "." * (n - len(tag) - 1) + "\n").encode()
+    members = [("below.txt", body("BELOW", limit - 1)), ("at.txt", body("ATLIMIT", limit)), ("over.txt", body("OVER", limit + 1)), ("twice.txt", body("TWICE", 2 * limit))]
+    old = ae._config
+    ae._config = dataclasses.replace(old, max_memory_size=limit)
+    try:
+        for kind, data, name in (("zip", archive_probe._zip(members), "t.zip"), ("zip-stored", archive_probe._zip(members, zipfile.ZIP_STORED), "t.zip"),
+                                 ("tar", archive_probe._tar(members), "t.tar")):
+            try:
+                texts = [r.get_full_text() for r in ae.read_archive(io.BytesIO(data), name)]
+            except Exception:  # noqa
+                continue
+            seen = {tag for tag in ("BELOW", "ATLIMIT", "OVER", "TWICE") if any(t.startswith(tag) for t in texts)}
+            if seen != {"BELOW", "ATLIMIT"}:
+                return {"reproduced": True, "target": "archive_extractor.py::read_archive",
+                        "inputs": {"archive": kind, "members": [(n, len(d)) for n, d in members], "max_memory_size": limit},
+                        "expected": "results for the members of limit-1 and limit bytes only", "observed": f"results for {sorted(seen)}"}
+    finally:
+        ae._config = old
+    return None
+
+
 def entry_limit(limit=500):
     """_process_archive_entry: an entry above MAX_ARCHIVE_FILE_SIZE is not handed to an extractor (the per-member limit is above it)."""
     from sharepoint2text.parsing.extractors import archive_extractor as ae
@@ -493,7 +523,7 @@ def native_scope(which):
     _sys.path.insert(0, os.path.dirname(os.path.abspath(__file__)))
     import archive_probe
     if which == "explicit-limits":
-        for fn in (limits_read_file, limits_7z, limit_values, archive_probe.oversize_members, tar_links, entry_limit):
+        for fn in (limits_read_file, limits_7z, limit_values, archive_probe.oversize_members, member_boundary, tar_links, entry_limit):
             r = fn()
             if r is not None:
                 r["reproduced"] = True
@@ -548,7 +578,7 @@ def find(req):
             return r
     # ---- per-member limits
     if generic or "member-size-check" in ob or "_extract_from_zip_optimized" in ob or "_extract_from_tar_optimized" in ob:
-        r = archive_probe.oversize_members()
+        r = archive_probe.oversize_members() or member_boundary()
         if r is not None:
             return r
     if generic or "regular-members-only" in ob or "_extract_from_tar_optimized" in ob:
